@@ -388,17 +388,17 @@ pub fn gen_graph(rng: &mut Rng, o: &GenOpts) -> Graph {
     if o.many_props && rng.chance(1, 40) {
         // more properties than bits in a machine word: fillers that are never discovered (always
         // true / never true) around the generated ones, which land at arbitrary positions
-        let total = rng.range(62, 78) as usize;
+        let total = rng.range(62, 79) as usize;
         while props.len() < total {
             let filler = if rng.chance(1, 2) { PropSpec { kind: Kind::Always, bits: vec![true; n] } } else { PropSpec { kind: Kind::Sometimes, bits: vec![false; n] } };
             let i = if rng.chance(1, 2) { 0 } else { rng.usize_below(props.len() + 1) };
             props.insert(i, filler);
         }
         // an eventually-property exactly one machine word of positions after another one
-        if rng.chance(1, 2) {
-            if let Some(i) = (0..props.len().saturating_sub(64)).find(|i| props[*i].kind == Kind::Eventually) {
-                props[i + 64] = PropSpec { kind: Kind::Eventually, bits: gen_bits(rng, n) };
-            }
+        if rng.chance(1, 2) && props.len() > 65 && o.kinds.contains(&Kind::Eventually) {
+            let j = rng.usize_below(props.len() - 64);
+            props[j] = PropSpec { kind: Kind::Eventually, bits: gen_bits(rng, n) };
+            props[j + 64] = PropSpec { kind: Kind::Eventually, bits: gen_bits(rng, n) };
         }
     }
     if o.undiscoverable {
